@@ -574,7 +574,9 @@ func (sa *Application) RemoveAllocationAsk(allocKey string) int {
 // unlocked version of the allocation ask removal
 func (sa *Application) removeAsksInternal(allocKey string, detail si.EventRecord_ChangeDetail) int {
 	// shortcut no need to do anything
-	if len(sa.requests) == 0 {
+	// (an application that terminated has had its requests dropped already, its reservations and pending resources
+	// are cleaned up here)
+	if len(sa.requests) == 0 && len(sa.reservations) == 0 {
 		return 0
 	}
 	var deltaPendingResource *resources.Resource = nil
